@@ -340,6 +340,8 @@ def expected_rdflib(case):
     if case["entry"] in ("flat_to_file", "flat_to_file_default"):
         return {T.norm_stmt([T.rdflib_canon(t) for t in s]) for s in case["statements"]}
     cont = rdflib_container(case["statements"], case["phys"], empty_graphs=case.get("empty_graphs"))
+    # the object that is handed over is the ground truth (pickling an rdflib Literal re-normalises its lexical form)
+    cont = _copied(cont, case.get("object_copy"))
     return {T.norm_stmt(s) for s in pyj.sink_events(cont, "rdflib")}
 
 
